@@ -1175,3 +1175,28 @@ Theorem release_idempotent_run ops i :
   next (step (step s (ORelease i)) (ORelease i)) = next (step s (ORelease i)) /\
   forall j, get (step (step s (ORelease i)) (ORelease i)) j = get (step s (ORelease i)) j.
 Proof. intros s. apply release_idempotent, run_inv. Qed.
+
+(* every ffi.new_handle call makes a NEW handle object (also for the same x), whose address is
+   its own (newp_handle: c_data = (char * )cd): handles are never shared or reused while alive *)
+Theorem new_handle_fresh ops x a :
+  let s := run ops in
+  usable s x = true -> addr_free s a = true ->
+  let s' := step s (ONewHandle x a) in
+  next s' = S (next s) /\ k (get s' (next s)) = KHandle x /\ alive (get s' (next s)) = true /\
+  addr (get s' (next s)) = a /\ (forall j, j < next s -> get s' j = get s j).
+Proof.
+  intros s U F. cbn [step]. rewrite U, F. cbn [andb].
+  rewrite next_alloc, get_alloc, Nat.eqb_refl. repeat split; try reflexivity.
+  intros j L. rewrite get_alloc. destruct (Nat.eqb_spec j (next s)); [lia | reflexivity].
+Qed.
+
+(* the address table is a function on live objects: an address belongs to at most one live
+   object, so from_handle can never be handed the address of one live handle and answer with
+   another one's object.  For two handles alive at the same time this is hypothesis R2 (malloc
+   does not return memory that is in use) carried along the history - named as such. *)
+Theorem live_handles_distinct_addresses_under_R2 ops h1 h2 x1 x2 :
+  let s := run ops in
+  alive (get s h1) = true -> alive (get s h2) = true ->
+  k (get s h1) = KHandle x1 -> k (get s h2) = KHandle x2 -> h1 <> h2 ->
+  addr (get s h1) <> addr (get s h2).
+Proof. intros s A B _ _ N E. apply N. eapply (i_addr s (run_inv ops)); eassumption. Qed.
